@@ -119,6 +119,27 @@ def make_input(rng: random.Random, case: Dict[str, Any], up: bytes) -> bytes:
         if w == 'no-crlf':
             return b'GET http://' + up + b'/' + b'a' * 200000
         return b'\r\n' * 40000
+    if kind == 'dup-framing':
+        # repeated / conflicting framing header fields, any order and letter case, with fewer, exactly as many and more body bytes
+        # than either value announces (request smuggling material: whatever is decided, it must be decided, not spun on)
+        vals = [b'0', b'1', b'3', b'5', b'10', b'', b'-1', b'x', b'99999999999999999999', b'+3', b'03']
+        names = [b'Content-Length', b'content-length', b'CONTENT-LENGTH', b'Content-length']
+        a, b2 = case['a'], case['b']
+        hs = [rng.choice(names) + b': ' + vals[a % len(vals)], rng.choice(names) + b': ' + vals[b2 % len(vals)]]
+        shape = case['shape']
+        if shape == 'te-cl':
+            hs[0] = rng.choice([b'Transfer-Encoding', b'transfer-encoding']) + b': chunked'
+        elif shape == 'cl-te':
+            hs[1] = rng.choice([b'Transfer-Encoding', b'transfer-encoding']) + b': chunked'
+        elif shape == 'te-te':
+            hs = [b'Transfer-Encoding: ' + rng.choice([b'chunked', b'identity', b'gzip']), b'Transfer-Encoding: ' + rng.choice([b'chunked', b'identity', b'gzip, chunked'])]
+        elif shape == 'triple':
+            hs.append(rng.choice(names) + b': ' + rng.choice(vals))
+        extra = [b'X-Between: 1'] if rng.random() < 0.5 else []
+        body = rng.choice([b'', b'X', b'abc', b'hello', b'hello world!', b'5\r\nhello\r\n0\r\n\r\n', b'0\r\n\r\n'])
+        tail = b'' if rng.random() < 0.6 else b'GET http://' + up + b'/next HTTP/1.1\r\nHost: ' + up + b'\r\n\r\n'
+        first = (b'POST /w HTTP/1.1\r\nHost: w.test' if case.get('cfg') == 'web' else b'POST http://' + up + b'/d HTTP/1.1\r\nHost: ' + up)
+        return first + b'\r\n' + hs[0] + b'\r\n' + b''.join(e + b'\r\n' for e in extra) + b'\r\n'.join(hs[1:]) + b'\r\n\r\n' + body + tail
     if kind == 'nonutf8':
         field = case['field']
         bad = rng.choice([b'\xff', b'\xc3\x28', b'\xe2\x82', b'\x80abc', b'\xfe\xfe\xff'])
@@ -358,6 +379,14 @@ def cases(tier: str, seed: int):
             yield mk(kind='oversize', what=w, seg=sg, cfg=rng.choice(['proxy', 'web']))
     for k in range(1500 if tier == 'quick' else 45000):
         yield mk(kind='builder', law=['L2', 'L7', 'L8'][k % 3])
+    for a in range(11):
+        for b2 in range(11):
+            for shape in (['cl-cl'] if tier == 'quick' and (a + b2) % 3 else ['cl-cl', 'triple']):
+                yield mk(kind='dup-framing', a=a, b=b2, shape=shape, seg=segs[(a + b2) % 3], cfg='proxy' if (a * 11 + b2) % 4 else 'web',
+                         live_origin=(a + b2) % 2 == 0)
+    for k in range(60 if tier == 'quick' else 1200):
+        yield mk(kind='dup-framing', a=rng.randrange(11), b=rng.randrange(11), shape=rng.choice(['te-cl', 'cl-te', 'te-te']), seg=rng.choice(segs),
+                 cfg=rng.choice(['proxy', 'web']), live_origin=rng.random() < 0.5)
     for f in ['method', 'host', 'path', 'version', 'header-name', 'header-value', 'connect-host', 'web-path', 'web-ua', 'body']:
         for rep in range(3 if tier == 'quick' else 40):
             for sg in segs:
@@ -366,7 +395,8 @@ def cases(tier: str, seed: int):
 
 def floors(tier: str) -> Dict[str, int]:
     return {'builder:L2': 300, 'builder:L7': 300, 'builder:L8': 300,'outcome:rejected': 300, 'outcome:waiting': 100, 'outcome:closed-silently': 5, 'kind:trunc': 300,
-            'kind:mutate': 200, 'kind:random': 200, 'kind:nonutf8': 50, 'distinct:outcomes': 5}
+            'kind:mutate': 200, 'kind:random': 200, 'kind:nonutf8': 50, 'distinct:outcomes': 5,
+            'kind:dup-framing': 150}
 
 
 if __name__ == '__main__':
